@@ -2,14 +2,14 @@ SPECIFICATION MCSpec
 CONSTANTS
   SpuriousPass = FALSE
   AllSchedules = TRUE
-  PermuteModules = TRUE
-  N = 3
+  PermuteModules = FALSE
+  N = 2
   Kinds = {"val", "ptr"}
-  VftTypes = {2}
+  VftTypes = {1}
   FnKinds = {}
   FnOwners = {}
-  Twins = {"none"}
-  TwoModules = TRUE
-  Ptrs = {4}
+  Twins = {"same", "other"}
+  TwoModules = FALSE
+  Ptrs = {4, 8}
 INVARIANTS Inv_Passes Replay
 CHECK_DEADLOCK FALSE
